@@ -1,6 +1,6 @@
 """C03 -- endian-explicit scalars, bswap helpers, sign extension (DESIGN.md section 4, C03)."""
 from vf.extract import Source, Unit
-from vf.lex import Rule
+from vf.lex import Rule, ExtractionBreak
 from vf.pipeline import Group, Replay
 
 ID = 'C03'
@@ -39,6 +39,205 @@ def leaf_unit(ctx, src):
     return u
 
 
+def spec_unit(ctx, src):
+    """the explicit specialisations bswap<A,R> -> bswap__A__R"""
+    import re
+    u = Unit(ctx, 'bswap_spec')
+    text = src.text(ENC)
+    specs = re.findall(r'template <>\s*inline (\w+) bswap<(\w+)(?:, (\w+))?>\((\w+) v\)', text)
+    if len(specs) != 12:
+        raise ExtractionBreak('expected 12 explicit bswap<> specialisations, found %d' % len(specs))
+    names = []
+    for ret, a, r, argt in specs:
+        r = r or a
+        if argt != a or ret != r:
+            raise ExtractionBreak('bswap<%s,%s> has signature %s(%s)' % (a, r, ret, argt))
+        rules = []
+        if a in ('float', 'double') or r in ('float', 'double'):
+            w = '32' if '32' in a + r or 'float' in (a, r) else '64'
+            suffix = {('float', 'uint32_t'): '_f2u', ('uint32_t', 'float'): '_u2f',
+                      ('double', 'uint64_t'): '_d2u', ('uint64_t', 'double'): '_u2d'}[(a, r)]
+            rules = [Rule('bswap%sf(' % w, 'bswap%sf%s(' % (w, suffix), count=1)]
+        sig = r'inline %s bswap<%s%s>\(%s v\)' % (ret, a, (', ' + r) if r != a else '', argt)
+        u.function(src, ENC, sig, new_header='static inline %s bswap__%s__%s(%s v)' % (r, a, r, a), rules=rules)
+        names.append((a, r))
+    return u, names
+
+
+PROMOTE = {'int16_t': 'int', 'uint16_t': 'int', 'int32_t': 'int', 'uint32_t': 'unsigned int', 'int64_t': 'long',
+           'uint64_t': 'unsigned long', 'int': 'int'}
+TINFO = {'int': (1, True, 'INT_MIN', 'INT_MAX', 32), 'unsigned int': (1, False, '0', 'UINT_MAX', 32),
+         'long': (2, True, 'LONG_MIN', 'LONG_MAX', 64), 'unsigned long': (2, False, '0', 'ULONG_MAX', 64)}
+
+
+def common(a, b):
+    a, b = PROMOTE[a], PROMOTE[b]
+    if a == b:
+        return a
+    (ra, sa, *_), (rb, sb, *_) = TINFO[a], TINFO[b]
+    if sa == sb:
+        return a if ra > rb else b
+    un, si = (a, b) if not sa else (b, a)
+    if TINFO[un][0] >= TINFO[si][0]:
+        return un
+    return si     # long can represent every unsigned int
+
+
+def ce_units(ctx, src):
+    """converted_endian members (macro-parameterised .inc), the two policy structs, the class->policy map."""
+    import re
+    text = src.text(ENC)
+    CLS = r'class converted_endian'
+    u = Unit(ctx, 'ce_members')
+    # layout: exactly one data member, packed
+    _, cbody, s, e = __import__('vf.lex', fromlist=['x']).find_def(text, CLS, 'class')
+    if len(re.findall(r'\bStoredT value;', cbody)) != 1 or not re.match(r'\s*__attribute__\(\(packed\)\);', text[e:e + 40]):
+        raise ExtractionBreak('converted_endian is no longer { StoredT value; } __attribute__((packed))')
+    data_members = re.findall(r'^\s*(?:private:|public:)?\s*([A-Za-z_][\w:<> ]*?)\s+(\w+);\s*$', cbody, re.M)
+    data_members = [d for d in data_members if not d[0].startswith('return') and d[0] not in ('ExposedT ret',)]
+    if [d for d in data_members if d[1] != 'value' and d[0] not in ('return',)]:
+        raise ExtractionBreak('converted_endian has additional data members: %r' % data_members)
+    ST = [Rule('OnStoreSt::fn(', 'M(onstore)(', count=None), Rule('OnLoadSt::fn(', 'M(onload)(', count=None)]
+    RET = [Rule('return *this;', 'return self;', count=1)]
+    ctor_expr = u.snippet(src, ENC, r'converted_endian\(ExposedT v\)\s*:\s*value\((.*?)\)\s*\{\s*\}', group=1, rules=ST)
+    u.raw('void M(ctor)(CE* self, ExposedT v)\n{\n  self->value = %s;\n}' % ctor_expr)
+    u.functions.append({'file': ENC, 'cxx_header': 'converted_endian(ExposedT v) : value(...) {}', 'c_header': 'void M(ctor)(CE* self, ExposedT v)', 'line': 0})
+    mem = [
+        (r'operator ExposedT\(\) const', 'ExposedT M(conv)(const CE* self)', []),
+        (r'void store\(ExposedT v\)', 'void M(store)(CE* self, ExposedT v)', []),
+        (r'ExposedT load\(\) const', 'ExposedT M(load)(const CE* self)', []),
+        (r'void store_raw\(StoredT v\)', 'void M(store_raw)(CE* self, StoredT v)', []),
+        (r'StoredT load_raw\(\) const', 'StoredT M(load_raw)(const CE* self)', []),
+        (r'converted_endian& operator=\(ExposedT v\)', 'CE* M(assign)(CE* self, ExposedT v)', RET),
+        (r'ExposedT operator\+\+\(\)', 'ExposedT M(preinc)(CE* self)', []),
+        (r'ExposedT operator--\(\)', 'ExposedT M(predec)(CE* self)', []),
+        (r'ExposedT operator\+\+\(int\)', 'ExposedT M(postinc)(CE* self)', []),
+        (r'ExposedT operator--\(int\)', 'ExposedT M(postdec)(CE* self)', []),
+    ]
+    for sig, hdr, rules in mem:
+        u.function(src, ENC, sig, new_header=hdr, rules=ST + rules, scope=CLS)
+    ops = [('+', 'add'), ('-', 'sub'), ('*', 'mul'), ('/', 'div')]
+    iops = [('%', 'mod'), ('&', 'and'), ('|', 'or'), ('^', 'xor'), ('<<', 'shl'), ('>>', 'shr')]
+    for op, nm in ops:
+        u.function(src, ENC, r'converted_endian& operator%s=\(R delta\)' % re.escape(op),
+                   new_header='CE* M(%s_assign)(CE* self, R delta)' % nm, rules=ST + RET, scope=CLS)
+    u.raw('#if !ISFLOAT')
+    for op, nm in iops:
+        u.function(src, ENC, r'converted_endian& operator%s=\(R delta\)' % re.escape(op),
+                   new_header='CE* M(%s_assign)(CE* self, R delta)' % nm, rules=ST + RET, scope=CLS)
+    u.raw('#endif')
+    # every member function of the class must have been taken (a new operator would otherwise go unverified)
+    n_members = len(re.findall(r'\)\s*(?:const\s*)?\{', __import__('vf.lex', fromlist=['x']).mask(cbody)))
+    if n_members != len(mem) + len(ops) + len(iops) + 1:
+        raise ExtractionBreak('converted_endian has %d member definitions, the table covers %d'
+                              % (n_members, len(mem) + len(ops) + len(iops) + 1))
+    u.write(suffix='.inc')
+    # policy structs
+    ub = Unit(ctx, 'bswap_st')
+    ub.function(src, ENC, r'static inline ResultT fn\(ArgT v\)', scope=r'struct bswap_st',
+                new_header='static inline ResultT ST_FN(ArgT v)',
+                rules=[Rule('bswap<ArgT, ResultT>(v)', 'BSWAP_SPEC(ArgT, ResultT)(v)', count=1)])
+    ub.write(suffix='.inc')
+    ui = Unit(ctx, 'ident_st')
+    ui.function(src, ENC, r'static inline ResultT fn\(ArgT v\)', scope=r'struct ident_st',
+                new_header='static inline ResultT ST_FN(ArgT v)')
+    ui.write(suffix='.inc')
+    # host-order selection, verbatim preprocessor text of Platform.hh
+    up = Unit(ctx, 'platform')
+    up.raw(up.snippet(src, 'src/Platform.hh', r'#if defined\(__BYTE_ORDER__\) && \(__BYTE_ORDER__ == __ORDER_LITTLE_ENDIAN__\).*?\n#endif'))
+    up.write(suffix='.h', scan=False)
+    # class -> base / policy map
+    mo = re.search(r'#ifdef PHOSG_LITTLE_ENDIAN(.*?)#elif defined\(PHOSG_BIG_ENDIAN\)(.*?)#else', text, re.S)
+    if not mo:
+        raise ExtractionBreak('host byte-order #ifdef in Encoding.hh not found')
+    lines = []
+    for cond, part in (('#if defined(PHOSG_LITTLE_ENDIAN)', mo.group(1)), ('#elif defined(PHOSG_BIG_ENDIAN)', mo.group(2))):
+        pairs = re.findall(r'class (\w+) : public (\w+)<ExposedT, StoredT>', part)
+        if sorted(p[0] for p in pairs) != ['big_endian', 'little_endian']:
+            raise ExtractionBreak('unexpected classes in byte-order #ifdef: %r' % pairs)
+        lines.append(cond)
+        for c, b in pairs:
+            lines.append('#define BASE_%s %s' % (c, b))
+    lines.append('#else\n#error "No endianness define exists"\n#endif')
+    pol = re.findall(r'class (reverse_endian|same_endian)\s*:\s*public converted_endian<ExposedT, StoredT, (\w+)<ExposedT, StoredT>, (\w+)<StoredT, ExposedT>>', text)
+    if sorted(p[0] for p in pol) != ['reverse_endian', 'same_endian']:
+        raise ExtractionBreak('reverse_endian/same_endian base clauses not found')
+    for c, st, ld in pol:
+        lines.append('#define BASE_%s %s' % (c, c))
+        lines.append('#define STORE_INC_%s "x_%s.inc"' % (c, st))
+        lines.append('#define LOAD_INC_%s "x_%s.inc"' % (c, ld))
+    um = Unit(ctx, 'ce_map')
+    um.raw('\n'.join(lines))
+    um.write(suffix='.h', scan=False)
+    aliases = re.findall(r'using (\w+) = (reverse_endian|little_endian|big_endian)<(\w+)(?:, (\w+))?>;', text)
+    if len(aliases) != 24:
+        raise ExtractionBreak('expected 24 endian scalar aliases, found %d' % len(aliases))
+    return u, ub, ui, aliases
+
+
+def ce_groups(ctx, aliases):
+    groups = []
+    H = 'harness/C03/ce.c'
+    for name, cls, ex, st in aliases:
+        st = st or ex
+        isf = ex in ('float', 'double')
+        w = {'uint16_t': 16, 'int16_t': 16, 'uint32_t': 32, 'int32_t': 32, 'float': 32, 'uint64_t': 64, 'int64_t': 64, 'double': 64}[ex]
+        named = {'big_endian': 1, 'little_endian': 2, 'reverse_endian': 3}[cls]
+        base = ['CE=' + name, 'CLS=' + cls, 'ExposedT=' + ex, 'StoredT=' + st, 'W=%d' % w, 'NAMED=%d' % named, 'ISFLOAT=%d' % isf]
+        if not isf:
+            pl = PROMOTE[ex]
+            p1 = common(ex, 'int')
+            base += ['PL=' + pl, 'PL_SIGNED=%d' % TINFO[pl][1], 'PL_BITS=%d' % TINFO[pl][4], 'PL_MAX=' + TINFO[pl][3],
+                     'P1=' + p1, 'P1_SIGNED=%d' % TINFO[p1][1], 'P1_MIN=' + TINFO[p1][2], 'P1_MAX=' + TINFO[p1][3]]
+        rp = dict(driver='C03/ce.cc', sources=[])
+
+        def G(member, r=None, kind='loop-free', enforce=True, replace=None, heavy=False):
+            d = list(base)
+            rn = ''
+            if r:
+                d.append('R=' + r)
+                rn = '[R=%s]' % r
+                if not isf:
+                    c = common(ex, r)
+                    d += ['COMMON=' + c, 'COMMON_SIGNED=%d' % TINFO[c][1], 'COMMON_MIN=' + TINFO[c][2]]
+            elif not isf:
+                d += ['R=int', 'COMMON=int', 'COMMON_SIGNED=1', 'COMMON_MIN=INT_MIN']
+            else:
+                d += ['R=' + ex]
+            g = Group(name='Encoding.converted_endian[%s].%s%s' % (name, member, rn), harness=H,
+                      entry=('h_' if enforce else 'l_') + member, function='%s::%s' % (name, member),
+                      enforce=(name + '_' + member) if enforce else None, replace=replace or [], defines=d, kind=kind,
+                      clause_note='contracts/C03_ce.h: stored bytes in the named order and returned value equal the native operator',
+                      replay=Replay(mode=member, extra=[name, r or '-'], **rp))
+            if heavy:
+                g.first = 'cvc5'
+                g.stage1 = 20
+                g.timeout = 300
+            elif isf:
+                # pure bit moves through float-typed variables: the SMT floating-point theory (cvc5/z3 back ends) has a
+                # single NaN and cannot express bit-exactness, so only the bit-precise SAT back ends may answer
+                g.engines = ['minisat', 'cadical']
+                g.stage1 = 30
+                g.timeout = 300
+            groups.append(g)
+        groups.append(Group(name='Encoding.converted_endian[%s].layout' % name, harness=H, entry='h_layout',
+                            function=name, defines=base + ['R=int', 'COMMON=int', 'COMMON_SIGNED=1', 'COMMON_MIN=INT_MIN'] if not isf else base + ['R=' + ex],
+                            kind='lemma', min_post=2))
+        for m in ['ctor', 'conv', 'store', 'load', 'store_raw', 'load_raw', 'assign']:
+            G(m)
+        for m in ['preinc', 'predec', 'postinc', 'postdec']:
+            G(m, heavy=isf)
+        G('roundtrip', kind='lemma', enforce=False, replace=[name + '_store', name + '_load'])
+        rs = [ex] if isf else [ex, 'int']
+        for r in rs:
+            for m in ['add_assign', 'sub_assign', 'mul_assign', 'div_assign']:
+                G(m, r, heavy=(isf or m in ('mul_assign', 'div_assign')))
+            if not isf:
+                for m in ['mod_assign', 'and_assign', 'or_assign', 'xor_assign', 'shl_assign', 'shr_assign']:
+                    G(m, r, heavy=(m == 'mod_assign'))
+    return groups
+
+
 def plan(ctx):
     src = Source(ctx.src)
     groups = []
@@ -58,6 +257,42 @@ def plan(ctx):
                         replace=['bswap32f_u2f', 'bswap32f_f2u'], kind='lemma', replay=Replay(mode='bswap32f_roundtrip', **RP)))
     groups.append(Group(name='Encoding.bswap64f.roundtrip', harness=H, entry='l_bswap64f_roundtrip', function='bswap64f',
                         replace=['bswap64f_u2d', 'bswap64f_d2u'], kind='lemma', replay=Replay(mode='bswap64f_roundtrip', **RP)))
+    us, names = spec_unit(ctx, src)
+    us.write()
+    ctx.functions_under_contract += us.functions
+    for a, r in names:
+        fn = 'bswap__%s__%s' % (a, r)
+        groups.append(Group(name='Encoding.bswap<%s,%s>' % (a, r), harness='harness/C03/spec.c', entry='h_' + fn,
+                            function='bswap<%s,%s>' % (a, r), enforce=fn,
+                            replay=Replay(mode='bswap_spec', extra=[a, r], **RP)))
+    use = Unit(ctx, 'sign_extend')
+    use.function(src, ENC, r'ResultT sign_extend\(SrcT src\)', new_header='ResultT SE_NAME(SrcT src)',
+                 rules=[Rule(r'using UResultT = make_unsigned_t<ResultT>;', '', count=1)])
+    use.write(suffix='.inc')
+    ctx.functions_under_contract += use.functions
+    widths = {8: ('uint8_t', 'int8_t'), 16: ('uint16_t', 'int16_t'), 32: ('uint32_t', 'int32_t'), 64: ('uint64_t', 'int64_t')}
+    for sw in (8, 16, 32):
+        for ssign in (0, 1):
+            for rw in (16, 32, 64):
+                if rw <= sw:
+                    continue
+                for rsign in (0, 1):
+                    S, R = widths[sw][ssign], widths[rw][rsign]
+                    g = Group(name='Encoding.sign_extend<%s,%s>' % (R, S), harness='harness/C03/sign_extend.c', entry='h_sign_extend',
+                              function='sign_extend<%s,%s>' % (R, S), enforce='sign_extend_%s_%s' % (R, S),
+                              defines=['ResultT=' + R, 'SrcT=' + S, 'UResultT=' + widths[rw][0], 'SR=' + widths[rw][1],
+                                       'SS=' + widths[sw][1], 'US=' + widths[sw][0], 'SE_NAME=sign_extend_%s_%s' % (R, S)],
+                              clause_note='result == (signed ResultT)(signed SrcT)src, low bits preserved',
+                              replay=Replay(mode='sign_extend', extra=[R, S], **RP))
+                    if sw == 32:
+                        # `1 << 31` is well defined in C++20 (the language of the real code) but flagged as signed overflow
+                        # by the C front end: that check is switched off for the 32-bit source instantiations only
+                        from vf.pipeline import DEFAULT_CHECKS
+                        g.checks = [c for c in DEFAULT_CHECKS if c != '--signed-overflow-check'] + ['--no-signed-overflow-check']
+                    groups.append(g)
+    um, ub, ui, aliases = ce_units(ctx, src)
+    ctx.functions_under_contract += um.functions + ub.functions + ui.functions
+    groups += ce_groups(ctx, aliases)
     if ctx.tier == 'thorough':
         be = []
         for g in groups:
@@ -67,3 +302,17 @@ def plan(ctx):
             be.append(g2)
         groups += be
     return groups
+
+CLAIMED = True
+MANIFEST = dict(
+    category='proof',
+    text=('Every leaf helper (ext24/48, bswap8..64, float forms, the 12 bswap<> specialisations, sign_extend for all 24 narrower->wider '
+          'type pairs) and every member of converted_endian for all 24 wrapper types x {R = ExposedT, int} is put under a function contract '
+          'and discharged by cbmc over the full input domain (loop-free code, so each discharged obligation is a complete proof for all 2^16..2^128 '
+          'inputs); thorough repeats everything under a big-endian host model. Involutions and load(store(v)) are lemmas proved over the contracts.'),
+    note=('Trusted: cbmc/goto-instrument, the answering SAT/SMT solver, the extractor (text is cut from /repo/src each run; must-fire rules), the '
+          'spec macros in contracts/C03_*.h. Float arithmetic results are compared bit-exactly except that a NaN result only has to be a NaN '
+          '(payload not pinned; SMT FP theory has one NaN). Preconditions exclude inputs on which the native C operator is undefined. '
+          'sizeof/alignment facts are proved on the C mirror struct and static_asserted on the real class in the replay driver.'),
+    technique='function contracts (requires/ensures/assigns) enforced with goto-instrument --dfcc, discharged by cbmc (SAT/SMT portfolio), full-domain loop-free proofs',
+)
